@@ -4236,8 +4236,16 @@ class FlowIR(object):
 
             return value
 
-        # VV: Recursively convert the component in-place
-        convert(comp, expected_types, 'stage%s.%s' % (comp['stage'], comp['name']))
+        # VV: Recursively convert the component in-place (blueprints have neither a stage nor a name)
+        convert(comp, expected_types, full_name)
+
+        # VV: The platform-overrides of a component follow the schema of the component; their fields may also be
+        #     references to variables which have just been resolved into strings
+        overrides = comp.get('override')
+        if isinstance(overrides, dict):
+            for platform in overrides:
+                if isinstance(overrides[platform], dict):
+                    convert(overrides[platform], expected_types, '%s.override.%s' % (full_name, platform))
 
         if original_out_errors is None and len(out_errors):
             raise experiment.model.errors.FlowIRFailedComponentConvertType(comp, out_errors)
@@ -5359,6 +5367,8 @@ class FlowIRConcrete(object):
             global_blueprint, context=global_variables, flowir=self._flowir, ignore_errors=ignore_errors,
             label='blueprint.default.global', is_primitive=is_primitive
         )
+        # VV: Blueprint fields may be references to variables, after resolving them convert them to their proper type
+        FlowIR.convert_component_types(global_blueprint, ignore_convert_errors=ignore_errors, is_primitive=is_primitive)
 
         # VV: Repeat for the stage blueprints
         stages_blueprint = {}
@@ -5377,6 +5387,8 @@ class FlowIRConcrete(object):
                 stage_blueprint, context=context, flowir=self._flowir, ignore_errors=ignore_errors,
                 label='blueprint.default.stages.%d' % (stage_index), is_primitive=is_primitive
             )
+            FlowIR.convert_component_types(
+                stage_blueprint, ignore_convert_errors=ignore_errors, is_primitive=is_primitive)
 
             stages_blueprint[stage_index] = stage_blueprint
 
